@@ -26,6 +26,13 @@ type Input struct {
 	Unlisted bool   `json:"unlisted"` // probe a port that is not configured
 	CfgIP    string `json:"cfg_ip,omitempty"`   // port entry carries this address ("" = none)
 	ProbeIP  string `json:"probe_ip,omitempty"` // local address of the probe connection
+	// shape of the port table around the probed port: PortsN > 0 puts it at index PortIdx of a
+	// `ports = [...]` list of PortsN ports sharing the services; Before/After add entries for
+	// other ports (served by an unrelated detector-less service) in front of / behind it
+	PortsN  int  `json:"ports_n,omitempty"`
+	PortIdx int  `json:"port_idx,omitempty"`
+	Before  bool `json:"before,omitempty"`
+	After   bool `json:"after,omitempty"`
 }
 
 type Obs struct {
@@ -49,11 +56,28 @@ func mkToml(in Input) string {
 		}
 		fmt.Fprintf(&sb, "[service.%s]\ntype=%q\nname=%q\nprefix=%s\nreadsize=%d\n\n", name, ty, name, hx.TomlStr(s.Prefix), s.ReadSize)
 	}
-	hostport := "80"
+	host := ""
 	if in.CfgIP != "" {
-		hostport = in.CfgIP + ":80"
+		host = in.CfgIP + ":"
 	}
-	fmt.Fprintf(&sb, "[[port]]\nport=\"%s/%s\"\nservices=[%s]\n", in.Proto, hostport, strings.Join(names, ","))
+	if in.Before || in.After {
+		sb.WriteString("[service.sx]\ntype=\"verif-stub\"\nname=\"sx\"\nprefix=\"\"\nreadsize=64\n\n")
+	}
+	if in.Before {
+		fmt.Fprintf(&sb, "[[port]]\nports=[\"%s/%s70\",\"%s/%s71\"]\nservices=[\"sx\"]\n", in.Proto, host, in.Proto, host)
+	}
+	if in.PortsN > 0 {
+		var ps []string
+		for k := 0; k < in.PortsN; k++ {
+			ps = append(ps, fmt.Sprintf("\"%s/%s%d\"", in.Proto, host, 80+k))
+		}
+		fmt.Fprintf(&sb, "[[port]]\nports=[%s]\nservices=[%s]\n", strings.Join(ps, ","), strings.Join(names, ","))
+	} else {
+		fmt.Fprintf(&sb, "[[port]]\nport=\"%s/%s80\"\nservices=[%s]\n", in.Proto, host, strings.Join(names, ","))
+	}
+	if in.After {
+		fmt.Fprintf(&sb, "[[port]]\nport=\"%s/%s95\"\nservices=[\"sx\"]\n", in.Proto, host)
+	}
 	return sb.String()
 }
 
@@ -67,9 +91,9 @@ func runOne(in Input, scratch string) (Obs, string) {
 	if !l.Started() {
 		return ob, "server returned before starting the listener"
 	}
-	port := 80
+	port := 80 + in.PortIdx
 	if in.Unlisted {
-		port = 81
+		port = 99
 	}
 	var segs [][]byte
 	for _, s := range in.Segs {
@@ -106,7 +130,7 @@ func runOne(in Input, scratch string) (Obs, string) {
 // sockRun: the real "socket" listener on loopback; concurrent TCP connections and a burst
 // of UDP datagrams; every connection/datagram becomes one ordinary case.
 func sockRun(r *hx.Rand, scratch string, nUDP, nTCP int) ([]Input, []Obs, []string) {
-	ports := lab.FreePorts(3)
+	ports := lab.FreePorts(5)
 	svcs := []Svc{{ID: 1, Detector: true, Prefix: "AA", ReadSize: 4096}, {ID: 2, Detector: true, Prefix: "B", ReadSize: 7}, {ID: 3, ReadSize: 512}}
 	var sb strings.Builder
 	sb.WriteString("[listener]\ntype=\"socket\"\n\n")
@@ -120,6 +144,7 @@ func sockRun(r *hx.Rand, scratch string, nUDP, nTCP int) ([]Input, []Obs, []stri
 	fmt.Fprintf(&sb, "[[port]]\nport=\"tcp/127.0.0.1:%d\"\nservices=[\"s3\"]\n", ports[0])
 	fmt.Fprintf(&sb, "[[port]]\nport=\"tcp/127.0.0.1:%d\"\nservices=[\"s1\",\"s2\",\"s3\"]\n", ports[1])
 	fmt.Fprintf(&sb, "[[port]]\nport=\"udp/127.0.0.1:%d\"\nservices=[\"s1\",\"s2\",\"s3\"]\n", ports[2])
+	fmt.Fprintf(&sb, "[[port]]\nports=[\"udp/127.0.0.1:%d\",\"tcp/127.0.0.1:%d\"]\nservices=[\"s3\"]\n", ports[3], ports[4])
 	l, err := lab.StartSocket(sb.String(), scratch, fmt.Sprintf("127.0.0.1:%d", ports[0]))
 	if err != nil {
 		hx.Fatal("socket lab: %v", err)
@@ -139,12 +164,17 @@ func sockRun(r *hx.Rand, scratch string, nUDP, nTCP int) ([]Input, []Obs, []stri
 	for i := 0; i < nUDP; i++ {
 		payload := append([]byte(pfx[r.Intn(len(pfx))]), []byte(fmt.Sprintf("-udp-%03d-", i))...)
 		payload = append(payload, r.Bytes(r.PickInt([]int{0, 3, 50, 700, 1400}))...)
-		c, err := net.DialUDP("udp", nil, &net.UDPAddr{IP: net.ParseIP("127.0.0.1"), Port: ports[2]})
+		// two UDP ports with different service lists: a datagram is served by ITS port's services
+		uport, usvcs := ports[2], svcs
+		if i%3 == 2 {
+			uport, usvcs = ports[3], svcs[2:]
+		}
+		c, err := net.DialUDP("udp", nil, &net.UDPAddr{IP: net.ParseIP("127.0.0.1"), Port: uport})
 		if err != nil {
 			hx.Fatal("dial udp: %v", err)
 		}
 		c.Write(payload)
-		all = append(all, sent{in: Input{Proto: "udp", Svcs: svcs, Segs: []hx.B{payload}}, lport: c.LocalAddr().(*net.UDPAddr).Port, proto: "udp"})
+		all = append(all, sent{in: Input{Proto: "udp", Svcs: usvcs, Segs: []hx.B{payload}}, lport: c.LocalAddr().(*net.UDPAddr).Port, proto: "udp"})
 		defer c.Close()
 	}
 	for i := 0; i < nTCP; i++ {
@@ -266,6 +296,11 @@ func genInput(r *hx.Rand) Input {
 	if r.Chance(1, 15) {
 		in.Unlisted = true
 	}
+	if r.Chance(1, 2) {
+		in.PortsN = r.Range(1, 4)
+		in.PortIdx = r.Intn(in.PortsN)
+	}
+	in.Before, in.After = r.Chance(1, 3), r.Chance(1, 3)
 	// ports match on the address too, when one is configured
 	if r.Chance(1, 4) {
 		in.CfgIP = "192.0.2.1"
